@@ -48,7 +48,7 @@ PLUGIN_KIND = {"source": "source", "rowwise": "ordinary", "filter": "ordinary", 
 APPLICABLE = {
     "source": ["dtype_chunk_data", "dtype_chunk_both", "row_early", "row_late", "wrong_label", "gap", "overlap"],
     "ordinary": ["dtype_bare", "dtype_chunk_data", "dtype_chunk_both", "row_early", "row_late", "wrong_label"],
-    "multi": ["dtype_bare", "row_early", "row_late", "non_dict", "missing_output"],
+    "multi": ["dtype_bare", "dtype_sibling_chunk", "row_early", "row_late", "non_dict", "missing_output"],
     "loop": ["dtype_bare", "dtype_chunk_data", "dtype_chunk_both", "row_late", "wrong_label"],
     "overlap": ["dtype_bare", "dtype_chunk_both", "row_late", "wrong_label"],
     "downchunk": ["dtype_chunk_data", "dtype_chunk_both", "row_late", "wrong_label", "gap"],
@@ -100,6 +100,12 @@ def make_mutation(kind):
             a = res[key]
             if kind == "dtype_bare":
                 r[key] = bad_like(a)
+            elif kind == "dtype_sibling_chunk":
+                # a self-consistent Chunk labelled as this output but declaring and carrying the dtype of the
+                # sibling output (outputs mixed up)
+                sib = res[sorted(res)[0]]
+                r[key] = strax.Chunk(start=start, end=end, data=sib.copy(), dtype=sib.dtype, data_type=key,
+                                     data_kind=plugin.data_kind_for(key), run_id=plugin._run_id)
             elif kind == "row_early":
                 b = a.copy()
                 if len(b):
